@@ -22,6 +22,7 @@ import Oas3Model.Driver.ReqInterop
 import Oas3Model.Driver.Valid
 import Oas3Model.Driver.ValidSites
 import Oas3Model.Driver.Lex
+import Oas3Model.Driver.NameIndex
 open Lean Oas3.Driver
 
 def allOps : List (String × Handler) := List.flatten [
@@ -48,6 +49,7 @@ def allOps : List (String × Handler) := List.flatten [
   Oas3.Driver.Valid.ops,
   Oas3.Driver.ValidSites.ops,
   Oas3.Driver.Lex.ops,
+  Oas3.Driver.NameIndex.ops,
   []]
 
 def handleLine (line : String) : String :=
